@@ -64,6 +64,11 @@ class Node:
                 return n
         return None
 
+    def in_loop(self) -> bool:
+        """Inside a loop that can iterate (the one-shot ``while True: ..; break`` blocks that
+        asl.inline uses for early returns of an inlined helper are not loops)."""
+        return any(k == "loop" and not getattr(a, "asl_once", False) for (k, a) in self.regions)
+
     def in_region(self, kind: str, astnode: ast.AST) -> bool:
         return any(k == kind and a is astnode for (k, a) in self.regions)
 
